@@ -201,3 +201,55 @@ axioms_harness!(k_tables_axioms_p1g1, p1g1, 0, 1, 0);
 axioms_harness!(k_tables_axioms_p2mm, p2mm, 2, 0, 1);
 axioms_harness!(k_tables_axioms_p2mg, p2mg, 1, 1, 1);
 axioms_harness!(k_tables_axioms_p2gg, p2gg, 0, 2, 1);
+
+/// WyckoffSite::new (C16, C15, C17): the site built from a table holds ONE operation per table string — none dropped, merged or
+/// altered on the way from the string to the list — and each is a general position of the group; together with the per-string
+/// harnesses above (string k parses to a general position) and the count this is a bijection with the ITA list.
+macro_rules! wyckoff_harness {
+    ($name:ident, $g:ident) => {
+        #[kani::proof]
+        #[kani::unwind(40)]
+        fn $name() {
+            let wg = get_wallpaper_group(WallpaperGroups::$g).unwrap();
+            let (_, ops) = ita(stringify!($g));
+            let site = WyckoffSite::new(&wg);
+            assert!(site.is_ok());
+            let site = site.unwrap();
+            assert!(site.symmetries.len() == ops.len());
+            assert!(site.multiplicity() == ops.len());
+            let mut seen = [false; 4];
+            let mut k = 0;
+            while k < site.symmetries.len() {
+                let m: Matrix3<f64> = site.symmetries[k].into();
+                assert!(m[(2, 0)] == 0. && m[(2, 1)] == 0. && m[(2, 2)] == 0.);
+                let mut found = ops.len();
+                let mut j = 0;
+                while j < ops.len() {
+                    if same_mod_lattice(&m, &ops[j]) { found = j; }
+                    j += 1;
+                }
+                assert!(found < ops.len());   // a general position of the group
+                assert!(!seen[found]);        // not one that is already in the list
+                seen[found] = true;
+                k += 1;
+            }
+            kani::cover!(true);
+        }
+    };
+}
+wyckoff_harness!(k_wyckoff_new_p1, p1);
+wyckoff_harness!(k_wyckoff_new_p2, p2);
+wyckoff_harness!(k_wyckoff_new_p1m1, p1m1);
+wyckoff_harness!(k_wyckoff_new_p1g1, p1g1);
+wyckoff_harness!(k_wyckoff_new_p2mm, p2mm);
+wyckoff_harness!(k_wyckoff_new_p2mg, p2mg);
+wyckoff_harness!(k_wyckoff_new_p2gg, p2gg);
+
+/// C17 "anything else is reported as an error": a table with a malformed string does not yield a site
+#[kani::proof]
+#[kani::unwind(40)]
+fn k_wyckoff_new_bad() {
+    let wg = WallpaperGroup { name: "bad", family: CrystalFamily::Monoclinic, wyckoff_str: vec!["x,y", "x"] };
+    assert!(WyckoffSite::new(&wg).is_err());
+    kani::cover!(true);
+}
